@@ -1380,6 +1380,8 @@ class TestCaseInfo:
 
 def get_test_class_name(test):
     """Compute the test class name from the test object."""
+    # A failing subtest is reported in the name of the test it belongs to.
+    test = getattr(test, 'test_case', test)
     return f'{test.__module__}.{test.__class__.__name__}'
 
 
